@@ -38,7 +38,7 @@ from .. import tlc
 # of one lattice unit (4.9e-4) is far above the design tolerance but below 1e-9 x coordinate -- no RELATIVE slack on the
 # coordinates may make such a gap an abutment
 EMBEDDINGS = dict(_EMB, pico=Emb("pico", F(1, 10 ** 12)), far=Emb("far", F(1, 2 ** 11), 2 ** 20))
-ALL = list(_ALL8) + ["pico", "far"]
+ALL = list(_ALL8) + ["pico", "far", "mega"]      # mega (lattice.py): step 1234567.8, large inexact coordinates
 
 ROLE = {"TRUNK": "T", "NORTH": "N", "SOUTH": "S", "EAST": "E", "WEST": "W", "NO_POLYGON": "X"}
 EVENTS_PER_ROUND = 60000   # observed calls per round of (run real code -> TLC verdicts); bounds memory and batch size
@@ -260,7 +260,7 @@ def run_case(case):
     for k, lst in enumerate(orders):
         if "embs" in case:
             embs = case["embs"]
-        elif case["rotate"]:    # two embeddings per order, all nine over the orders of the case
+        elif case["rotate"]:    # two embeddings per order, all eleven over the orders of the case
             j = k + case.get("salt", 0)
             embs = [ALL[j % len(ALL)], ALL[(j + len(ALL) // 2) % len(ALL)]]
         else:
@@ -281,7 +281,7 @@ def run_case(case):
 # ----------------------------------------------------------------------------------------- cases
 def tlc_cases(printed):
     """Every multiset emitted by TLC, in every order, fresh and after history.  Up to three rectangles: every order
-    under all nine embeddings; four rectangles: each order under two embeddings (all nine over the orders)."""
+    under all eleven embeddings; four rectangles: each order under two embeddings (all eleven over the orders)."""
     cases = []
     for i, c in enumerate(printed):
         big = len(c["rects"]) >= 4
@@ -542,10 +542,10 @@ def run(ctx: Ctx) -> int:
     ctx.extra["embeddings"] = ALL
     ctx.extra["cases"] = {"tlc_multisets": len(uniq), "random": len(cases) - len(uniq)}
     ctx.assumptions += [
-        "float dimension sampled by 10 embeddings of the integer lattice (steps 1, 1.0, 1/2, 1/10, 1/3, 1e3, 1e-3, 0.1+37.3, 1e-12, 2^-11 at offset 2^20), not enumerated",
+        "float dimension sampled by 11 embeddings of the integer lattice (steps 1, 1.0, 1/2, 1/10, 1/3, 1e3, 1e-3, 0.1+37.3, 1e-12, 2^-11 at offset 2^20, 1234567.8), not enumerated",
         "Rectangle tolerances as a fresh process loading the design defines them (1e-12 x smallest side; the netlist route lets Netlist define them)",
-        "every TLC-enumerated multiset is run in every order, fresh and after history; lists of up to 3 rectangles under all 9 "
-        "embeddings per order, lists of 4 under 2 of the 9 per order (all 9 over the orders of one multiset)",
+        "every TLC-enumerated multiset is run in every order, fresh and after history; lists of up to 3 rectangles under all 11 "
+        "embeddings per order, lists of 4 under 2 of the 11 per order (all 11 over the orders of one multiset)",
         "universes: quick 3x2 lattice <= 3 rectangles and 4x4 <= 2; thorough 3x3 <= 3, 3x2 <= 4 and 4x4 <= 2; random orthogons and near misses up to 8 rectangles on a 40x40 lattice",
         "the netlist route (Netlist -> Module.create_stog / has_stog) is taken for one order of every multiset under 2 embeddings",
         "'every other rectangle' is read position-wise: a repeated rectangle is another rectangle",
